@@ -173,8 +173,9 @@ RET_FUNCS = ["service_class:QueryRetrieveServiceClass.SCP", "service_class:Query
 RET_KERNELS = ["get_qr", "move_qr"]
 N_SUBMIN = tier(2, 1)
 N_SUBMAX = tier(2, 3)
-N_OUTK = tier(1, 3)
-OUTK = tier([S.SUB_SUCCESS, S.SUB_EXCEPTION], [S.SUB_SUCCESS, S.SUB_WARNING, S.SUB_FAILURE, S.SUB_EXCEPTION])
+N_OUTK = tier(2, 5)
+OUTK = tier([S.SUB_SUCCESS, S.SUB_EXCEPTION, S.SUB_UNKNOWN_CODE],
+            [S.SUB_SUCCESS, S.SUB_WARNING, S.SUB_FAILURE, S.SUB_EXCEPTION, S.SUB_UNKNOWN_CODE, S.SUB_NO_STATUS])
 
 
 @harness(
